@@ -39,7 +39,7 @@ struct Slot {
 }
 
 static mut SINK: u64 = 0;
-/// C36_MIRI_NO_ITEMS=1: never build an AMitems (its known alignment/provenance defects stop Miri at once);
+/// `no-items` argument: never build an AMitems (its known alignment/provenance defects stop Miri at once);
 /// results are then inspected through AMresultItem() only and ops that need an AMitems argument are skipped.
 static mut NO_ITEMS: bool = false;
 
@@ -793,12 +793,12 @@ unsafe fn step(d: &mut D) {
     }
 }
 
-pub fn run(path: &str) {
+pub fn run(path: &str, no_items: bool) {
     let text = std::fs::read_to_string(path).expect("read script");
     let mut d = D { slots: vec![Slot { k: K::Empty, res: null_mut(), ptr: null() }; 512], t: vec![], bufs: vec![] };
     let mut n = 0;
     unsafe {
-        NO_ITEMS = std::env::var("C36_MIRI_NO_ITEMS").map(|v| v == "1").unwrap_or(false);
+        NO_ITEMS = no_items;
     }
     for l in text.lines() {
         d.t = l.split_whitespace().map(|s| s.to_string()).collect();
